@@ -21,29 +21,32 @@ pub open spec fn frame_core(g0: GlobalData, g1: GlobalData) -> bool {
     &&& g0.internalQueue.data@.is_prefix_of(g1.internalQueue.data@)
 }
 
+/// one call into the data-model oracle, as recorded in the ghost log
+pub ghost enum Call {
+    /// executeContent(block id)
+    Exec(u32),
+    /// initializeDataModel(state, set_data)
+    Init(u32, bool),
+}
+
 pub trait Datamodel {
     /// ghost view of the session's global data
     spec fn gview(&self) -> GlobalData;
 
-    /// ghost: ids of the executable-content blocks executed so far
-    spec fn log(&self) -> Seq<u32>;
-
-    /// ghost: (state, set_data) of every initializeDataModel call so far
-    spec fn init_log(&self) -> Seq<(u32, bool)>;
+    /// ghost: the oracle calls made so far (executable-content blocks run, data-model initialisations), in order
+    spec fn log(&self) -> Seq<Call>;
 
     fn gd(&mut self) -> (r: &mut GlobalData)
         ensures
             *r == old(self).gview(),
             final(self).gview() == *final(r),
-            final(self).log() == old(self).log(),
-            final(self).init_log() == old(self).init_log();
+            final(self).log() == old(self).log();
 
     /// gives the <data> elements of a state their values (oracle): touches the data store only
     fn initializeDataModel(&mut self, fsm: &mut Fsm, state: StateId, set_data: bool)
         ensures
             *final(fsm) == *old(fsm),
-            final(self).log() == old(self).log(),
-            final(self).init_log() == old(self).init_log().push((state, set_data)),
+            final(self).log() == old(self).log().push(Call::Init(state, set_data)),
             frame_core(old(self).gview(), final(self).gview()),
             final(self).gview().child_sessions == old(self).gview().child_sessions;
 
@@ -51,7 +54,6 @@ pub trait Datamodel {
     fn evaluate_params(&mut self, params: &Option<Vec<Parameter>>, values: &mut Vec<ParamPair>)
         ensures
             final(self).log() == old(self).log(),
-            final(self).init_log() == old(self).init_log(),
             frame_core(old(self).gview(), final(self).gview()),
             final(self).gview().child_sessions == old(self).gview().child_sessions;
 
@@ -63,8 +65,7 @@ pub trait Datamodel {
     /// runs one block of executable content (oracle): may raise events and change the data store only
     fn executeContent(&mut self, fsm: &Fsm, contentId: ExecutableContentId) -> (r: bool)
         ensures
-            final(self).log() == old(self).log().push(contentId),
-            final(self).init_log() == old(self).init_log(),
+            final(self).log() == old(self).log().push(Call::Exec(contentId)),
             frame_core(old(self).gview(), final(self).gview()),
             final(self).gview().child_sessions == old(self).gview().child_sessions;
 }
@@ -76,7 +77,6 @@ pub trait Datamodel {
 pub fn verif_evaluate_content_value(datamodel: &mut dyn Datamodel, content: &Option<CommonContent>) -> (r: Option<Data>)
     ensures
         final(datamodel).log() == old(datamodel).log(),
-        final(datamodel).init_log() == old(datamodel).init_log(),
         frame_core(old(datamodel).gview(), final(datamodel).gview()),
         final(datamodel).gview().child_sessions == old(datamodel).gview().child_sessions,
 {
